@@ -1,7 +1,7 @@
 """C17 — block sync delivers a gap-free ascending chain from a true common ancestor.
 spec/sync/Syncer.tla; binding: TLC behaviours (every transition of a small instance + simulated behaviours of
 larger ones) replayed message by message on the real syncer.Syncer (harness/syncer)."""
-import json, os, random, re, time
+import json, os, random, re, threading, time
 from collections import deque
 import vlib
 
@@ -212,40 +212,114 @@ def run_harness(c, params, behaviours, tag, par=24, timeout=3000):
     return r
 
 
+def e2e_scenarios(tier, rng):
+    """long-chain end-to-end scenarios against real chain services (real anchors: Skip 16, MaxAnchors 32)"""
+    S = []
+
+    def add(lbest, rbest, fork, full=False, rate=0.0, mf=0, chunk=10, hashreq=50, tasks=3, pend=4, peers=3):
+        S.append(dict(id="e%d" % len(S), lbest=lbest, rbest=rbest, fork=fork, target=rbest, npeers=peers, chunk=chunk, hashreq=hashreq,
+                      maxtasks=tasks, maxpend=pend, full=full, fault_rate=rate, max_faults=mf, seed=rng.randrange(1 << 30)))
+    # anchors reach the genesis block; forks between anchors; faulty peers
+    add(rng.randrange(20, 60), rng.randrange(70, 110), rng.randrange(0, 20), rate=0.15, mf=8, chunk=4, hashreq=10)
+    # more than 32 anchors: last anchor > 0; fork below it => honest "no ancestor" and full scan
+    lb = rng.randrange(513, 560)
+    add(lb, lb + rng.randrange(5, 40), rng.randrange(0, lb - 31 * 16), rate=0.05, mf=5)
+    # ... fork above the last anchor => light scan
+    lb = rng.randrange(513, 560)
+    add(lb, lb + rng.randrange(5, 40), rng.randrange(lb - 31 * 16, lb + 1))
+    if tier == "thorough":
+        for lb in (0, 1, 15, 16, 17, 31, 32, 33, 495, 496, 497, 511, 512, 513):      # anchor arithmetic edges
+            add(lb, lb + rng.randrange(3, 30), rng.randrange(0, lb + 1), rate=0.05, mf=3, chunk=rng.choice([1, 3, 10]), hashreq=rng.choice([7, 50]))
+        for _ in range(6):
+            lb = rng.randrange(513, 700)
+            add(lb, lb + rng.randrange(5, 60), rng.randrange(0, lb + 1), full=rng.random() < 0.3, rate=0.1, mf=10,
+                chunk=rng.choice([2, 5, 10]), hashreq=rng.choice([10, 50]), tasks=rng.choice([2, 5]), pend=rng.choice([1, 4, 10]), peers=rng.choice([2, 4]))
+        for _ in range(6):
+            lb = rng.randrange(5, 80)
+            add(lb, lb + rng.randrange(5, 80), rng.randrange(0, lb + 1), full=rng.random() < 0.5, rate=0.25, mf=12,
+                chunk=rng.choice([1, 2, 5]), hashreq=rng.choice([3, 10]), tasks=rng.choice([2, 5]), pend=rng.choice([1, 2, 10]), peers=rng.choice([1, 2, 4]))
+    return S
+
+
+def run_e2e(c, scenarios):
+    inpath = os.path.join(c.work, "syncer_e2e_in.json")
+    json.dump(dict(scenarios=scenarios), open(inpath, "w"))
+    outpath = os.path.join(c.work, "syncer_e2e_out.json")
+    rc, output = vlib.go_test("./syncer/", "^TestVerifSyncerE2E$", env={"VERIF_IN": inpath, "VERIF_OUT": outpath,
+                              "VERIF_SEED": c.seed, "VERIF_TIER": c.tier}, timeout=3000)
+    r = c.absorb_go(outpath, output)
+    if rc != 0 and not r.get("violations"):
+        raise vlib.Infra("e2e harness failed:\n" + output[-3000:])
+    return r
+
+
+def graph_behaviours(c, cfg, rng, tag, min_trs):
+    gen = vlib.tlc(SPEC_DIR, "MC_Syncer", cfg, os.path.join(c.work, "gen_" + tag), workers=1, timeout=2400)
+    c.require_ok(gen, "Syncer transition enumeration (%s)" % cfg)
+    trs = parse_gen(gen.out)
+    if len(trs) < min_trs:
+        raise vlib.Infra("too few transitions generated by %s: %d" % (cfg, len(trs)))
+    paths, ncov, unreach = edge_cover(trs, rng)
+    if unreach or ncov != len(trs):
+        raise vlib.Infra("%s: %d transitions not covered" % (cfg, len(trs) - ncov))
+    bs = behaviours_from_graph(trs, paths)
+    for b in bs:
+        b["id"] = tag + "-" + b["id"]
+    return bs, len(trs)
+
+
 def run(c):
     rng = random.Random(c.seed)
     c.rule = ("a case is one model behaviour (sequence of messages handled by the syncer actor, with faults, timeouts and stop "
-              "requests) replayed on the real Syncer, completed honestly and followed by a fresh session; distinct = distinct behaviours")
-    c.assumptions = ["chain service and peers are harness stubs; the sync peer answers ancestor/hash queries honestly or fails",
+              "requests) replayed on the real Syncer, completed honestly and followed by a fresh session, or one end-to-end scenario "
+              "against real chain services; distinct = distinct behaviours / scenarios")
+    c.assumptions = ["replay: chain service and peers are harness stubs; the sync peer answers ancestor/hash queries honestly or fails",
                      "responses are delivered one at a time after the syncer's goroutines became quiescent (message-level interleaving only)",
-                     "fetch-task timeouts emulated by back-dating FetchTask.started; TLC 1.8.0"]
+                     "fetch-task timeouts emulated by back-dating FetchTask.started; finder/hash-fetcher timeouts by short real timers",
+                     "e2e: real chain.ChainService on memorydb with a stub consensus and the VM stub; TLC 1.8.0"]
     thorough = c.tier == "thorough"
-    # 1. exhaustive design-level checks
-    res = vlib.tlc(SPEC_DIR, "MC_Syncer", "MC_Syncer.cfg", c.work, timeout=1500)
-    c.require_ok(res, "Syncer design: one session, all chain pairs, <=2 faults, stop request")
-    res = vlib.tlc(SPEC_DIR, "MC_Syncer", "MC_Syncer_restart.cfg", c.work, timeout=1500)
-    c.require_ok(res, "Syncer design: two sessions (stale messages, restart), <=1 fault")
-    res = vlib.tlc(SPEC_DIR, "MC_Syncer", "MC_Syncer_live.cfg", c.work, timeout=1500)
-    c.require_ok(res, "Syncer liveness: Terminates under fairness (small instance)")
+    # 1. exhaustive design-level checks, in the background while the replays run
+    mcs = [("MC_Syncer.cfg", "Syncer design: one session, all chain pairs (local<=2, remote<=4), <=2 faults, stop request, multi-expiry"),
+           ("MC_Syncer_restart.cfg", "Syncer design: two sessions (stale messages, sequence-less AddBlockRsp, restart), <=1 fault"),
+           ("MC_Syncer_live.cfg", "Syncer liveness: Terminates under fairness (small instance)")]
     if thorough:
-        res = vlib.tlc(SPEC_DIR, "MC_Syncer", "MC_Syncer_big.cfg", c.work, timeout=3000, heap="12g")
-        c.require_ok(res, "Syncer design, larger instance: two sessions, <=2 faults")
-    # 2. every transition of the small instance, as an edge cover of paths from the initial states
-    gen = vlib.tlc(SPEC_DIR, "MC_Syncer", "Gen_Syncer.cfg", c.work, workers=1, timeout=1500)
-    c.require_ok(gen, "Syncer transition enumeration (Gen_Syncer.cfg)")
-    trs = parse_gen(gen.out)
-    if len(trs) < 5000:
-        raise vlib.Infra("too few transitions generated: %d" % len(trs))
-    paths, ncov, unreach = edge_cover(trs, rng)
-    if unreach:
-        raise vlib.Infra("%d transitions not reachable from an initial state in the generated graph" % len(unreach))
-    bs = behaviours_from_graph(trs, paths)
-    run_harness(c, cfg_params("Gen_Syncer.cfg"), bs, "gen")
-    c.exhaustive = True
-    c.extra["exhaustive_note"] = ("exhaustive over the Gen_Syncer.cfg instance: all %d transitions (self-loops included) covered by %d "
-                                  "replayed paths; simulated behaviours of the larger instances are sampled" % (len(trs), len(paths)))
-    # 3. simulated behaviours of larger instances (two sessions, more faults, multi-expiry excluded)
-    if not c.violations:
-        n = 3000 if thorough else 400
-        bs2 = simulate(c, "Sim_Syncer.cfg", n, 45, "sim")
-        run_harness(c, cfg_params("Sim_Syncer.cfg"), bs2, "sim")
+        mcs.append(("MC_Syncer_big.cfg", "Syncer design, larger instance"))
+    mc_results = []
+
+    def mc_thread():
+        for cfg, what in mcs:
+            try:
+                mc_results.append((vlib.tlc(SPEC_DIR, "MC_Syncer", cfg, os.path.join(c.work, "mc"), workers=6 if not thorough else 10,
+                                            timeout=5400, heap="12g" if thorough else None), what))
+            except Exception as e:      # reported below
+                mc_results.append((e, what))
+    th = threading.Thread(target=mc_thread)
+    th.start()
+    try:
+        # 2. every transition of two small instances, as edge covers of paths from the initial states
+        bs, n1 = graph_behaviours(c, "Gen_Syncer.cfg", rng, "g", 5000)
+        run_harness(c, cfg_params("Gen_Syncer.cfg"), bs, "gen")
+        note = "all %d transitions of Gen_Syncer.cfg (one session, light+full scan, <=1 fault, stop request) in %d paths" % (n1, len(bs))
+        if not c.violations:
+            ocfg = "Gen_Syncer_order1.cfg" if thorough else "Gen_Syncer_order.cfg"
+            bs, n2 = graph_behaviours(c, ocfg, rng, "o", 1500)
+            run_harness(c, cfg_params(ocfg), bs, "ord")
+            note += "; all %d transitions of %s (every response order over two hash sets, 3 peers) in %d paths" % (n2, ocfg, len(bs))
+        c.exhaustive = True
+        c.extra["exhaustive_note"] = "exhaustive over the generation instances: " + note + "; simulated behaviours and e2e scenarios are sampled"
+        # 3. simulated behaviours of a larger instance (two sessions, 3 peers, <=4 faults)
+        if not c.violations:
+            bs2 = simulate(c, "Sim_Syncer.cfg", 750 if thorough else 100, 60, "sim")
+            run_harness(c, cfg_params("Sim_Syncer.cfg"), bs2, "sim")
+        # 4. end-to-end against real chain services (real anchor constants, real findAncestor, real AddBlock/reorg)
+        if not c.violations:
+            r = run_e2e(c, e2e_scenarios(c.tier, rng))
+            c.notes.extend((r.get("notes") or [])[:6])
+    finally:
+        th.join()
+    for res, what in mc_results:
+        if isinstance(res, Exception):
+            raise vlib.Infra("TLC run '%s' failed: %s" % (what, res))
+        c.require_ok(res, what)
+    if len(mc_results) != len(mcs):
+        raise vlib.Infra("design-level model checking did not run")
